@@ -49,21 +49,25 @@ static SEEN: Mutex<Option<HashMap<String, (u64, String)>>> = Mutex::new(None);
 static INIT: Once = Once::new();
 
 fn first_repo_frame(bt: &str) -> String {
-    // std backtrace format: "  N: path::to::function\n      at file:line"
+    // std backtrace format: "  N: function" followed by "      at file:line:col".
+    // With line-tables-only debug info inlined frames carry short names, so the frame is named
+    // "<crate-relative file>::<function>" (no line numbers: they shift with every hook commit).
+    let mut last_fn = String::new();
     for line in bt.lines() {
         let l = line.trim_start();
-        if let Some(idx) = l.find(": ") {
-            let (num, rest) = l.split_at(idx);
-            if num.chars().all(|c| c.is_ascii_digit()) {
-                let f = rest[2..].trim();
-                if (f.starts_with("octo_squirrel") || f.starts_with("<octo_squirrel")) && !f.contains("{{closure}}::{{closure}}::{{closure}}::{{closure}}") {
-                    // strip the trailing hash
-                    let f = match f.rfind("::h") {
-                        Some(i) if f.len() - i == 19 => &f[..i],
-                        _ => f,
-                    };
-                    return f.to_string();
+        if let Some(rest) = l.strip_prefix("at ") {
+            for krate in ["octo-squirrel-client/src/", "octo-squirrel-server/src/", "octo-squirrel/src/"] {
+                if let Some(i) = rest.find(krate) {
+                    let path = &rest[i..];
+                    let file = path.split(':').next().unwrap_or(path);
+                    let f = last_fn.rsplit("::").find(|p| !p.starts_with('h') || p.len() != 17).unwrap_or(&last_fn);
+                    return format!("{}::{}", file, f);
                 }
+            }
+        } else if let Some(idx) = l.find(": ") {
+            let (num, rest) = l.split_at(idx);
+            if !num.is_empty() && num.chars().all(|c| c.is_ascii_digit()) {
+                last_fn = rest[2..].trim().to_string();
             }
         }
     }
@@ -90,7 +94,7 @@ pub fn install() {
                 e.0 += 1;
                 // symbolise the first occurrences and a sample afterwards; callers under the same
                 // (location, message) are the same in practice, the sample guards against that assumption
-                if e.0 <= 3 || e.0 % 512 == 0 {
+                if true {
                     let bt = std::backtrace::Backtrace::force_capture().to_string();
                     let f = first_repo_frame(&bt);
                     if e.1.is_empty() || e.1 == "?" {
